@@ -14,6 +14,7 @@
 #include <array>
 #include <cmath>
 #include <cstdlib>
+#include <functional>
 #include <iostream>
 #include <map>
 #include <memory>
@@ -240,12 +241,72 @@ static int extreme_witness()
     return rc;
 }
 
+// NATIVE exhaustive sweep (testing, not proof): every basin graph with nb <= NBmax basins and <= NEmax edges (ordered edge lists of pairwise different
+// unordered basin pairs, both orientations) and every weak ordering of the pass elevations (values 0..k-1 for k edges: the function only COMPARES
+// pass elevations, so these cover every order type of non-extreme weights), all on ONE reused basin_graph object
+static int exhaustive(std::size_t NBmax, std::size_t NEmax)
+{
+    grid_t grid(16, 1.0, fs::node_status::fixed_value);
+    impl_t impl(grid, true);
+    bg_t bg(impl, fs::mst_method::boruvka);
+    unsigned long long cases = 0;
+    for (std::size_t nb = 1; nb <= NBmax; ++nb)
+    {
+        std::vector<std::array<std::size_t, 2>> pairs;
+        for (std::size_t a = 0; a < nb; ++a) for (std::size_t b = a + 1; b < nb; ++b) pairs.push_back({ a, b });
+        for (std::size_t k = 0; k <= std::min(NEmax, pairs.size()); ++k)
+        {
+            // ordered selections of k different pairs
+            std::vector<std::size_t> sel(k, 0);
+            std::function<int(std::size_t, unsigned)> rec = [&](std::size_t depth, unsigned used) -> int
+            {
+                if (depth == k)
+                {
+                    unsigned long long worder = 1;
+                    for (std::size_t i = 0; i < k; ++i) worder *= (k ? k : 1);
+                    for (unsigned orient = 0; orient < (1u << k); ++orient)
+                        for (unsigned long long wc = 0; wc < worder; ++wc)
+                        {
+                            Graph g; g.n = nb;
+                            unsigned long long w = wc;
+                            for (std::size_t i = 0; i < k; ++i)
+                            {
+                                auto pr = pairs[sel[i]];
+                                if (orient & (1u << i)) g.link.push_back({ pr[1], pr[0] }); else g.link.push_back({ pr[0], pr[1] });
+                                g.w.push_back(double(w % k)); w /= k;
+                            }
+                            inject(impl, bg, g);
+                            bg.compute_tree_boruvka();
+                            std::string msg = judge(g, bg.m_tree, "boruvka");
+                            if (msg.empty() && (!bg.m_low_degrees.empty() || !bg.m_large_degrees.empty())) msg = "C09: degree lists not empty at exit";
+                            ++cases;
+                            if (!msg.empty()) { std::cout << "FOUND (exhaustive sweep): " << msg << "\n"; dump(g); return 1; }
+                        }
+                    return 0;
+                }
+                for (std::size_t p = 0; p < pairs.size(); ++p)
+                    if (!(used & (1u << p))) { sel[depth] = p; if (rec(depth + 1, used | (1u << p))) return 1; }
+                return 0;
+            };
+            if (rec(0, 0)) return 1;
+        }
+    }
+    std::cout << "boruvka exhaustive native sweep: " << cases << " cases (all graphs with <= " << NBmax << " basins, <= " << NEmax
+              << " edges, all edge orders and orientations, all weak orderings of the weights, one reused object): ok\n";
+    return 0;
+}
+
 int main(int argc, char** argv)
 {
     auto j = load_replay(argc, argv);
     const char* mode = std::getenv("BORUVKA_MODE");
     if (mode && std::string(mode) == "stale") return stale_witness();
     if (mode && std::string(mode) == "extreme") return extreme_witness();
+    if (mode && std::string(mode) == "exhaustive")
+    {
+        const char* a = std::getenv("BORUVKA_NB"); const char* b = std::getenv("BORUVKA_NE");
+        return exhaustive(a ? std::strtoul(a, nullptr, 10) : 4, b ? std::strtoul(b, nullptr, 10) : 5);
+    }
     // replay of a failed obligation of the group that allows pass elevations DBL_MAX / +inf: run the witness of that candidate finding
     if (j.contains("group") && j["group"].is_string() && j["group"].get<std::string>().find("extreme") != std::string::npos) return extreme_witness();
     unsigned seed = 12345;
